@@ -203,6 +203,19 @@ impl Vtx {
         let author = strings.pop().unwrap();
         let title = strings.pop().unwrap();
 
+        // LH5 can't produce more than 256 bytes (longest match) out of two bits of compressed data,
+        // bigger decompressed size means that header is damaged
+        const MAX_COMPRESSION_RATIO: u64 = 1024;
+        let compressed_start = reader.stream_position()?;
+        let compressed_end = reader.seek(std::io::SeekFrom::End(0))?;
+        reader.seek(std::io::SeekFrom::Start(compressed_start))?;
+        let compressed_size = compressed_end.saturating_sub(compressed_start);
+        if decompressed_frames_size as u64 > compressed_size.saturating_mul(MAX_COMPRESSION_RATIO) {
+            return Err(VtxError::InvalidHeader {
+                message: "Invalid decompressed frames data size",
+            });
+        }
+
         // Size from the header is not trusted: memory is taken only for data which was really decoded
         const DECODE_CHUNK_SIZE: usize = 4096;
         let mut transposed_frame_data = Vec::new();
